@@ -4,15 +4,20 @@ package main
 
 import (
 	"bytes"
+	"crypto/rsa"
+	"encoding/base64"
 	"fmt"
 	"io"
 	"net/http"
+	"net/http/httptest"
 	"net/url"
 	"regexp"
 	"strings"
 	"time"
 
 	"github.com/crewjam/saml"
+	"github.com/crewjam/saml/samlsp"
+	"github.com/golang-jwt/jwt/v4"
 
 	. "verifharness/internal/core"
 )
@@ -111,6 +116,7 @@ func runC04(c *Ctx) {
 		}
 	}
 	c04HTTP(c)
+	c04Middleware(c)
 }
 
 // The HTTP artifact path: ParseResponse with SAMLart must bind the answer to the id of the
@@ -201,6 +207,81 @@ func c04HTTP(c *Ctx) {
 				Input: map[string]any{"artifact_response_in_response_to": mode, "outstanding": ids, "resolve_id_seen": stub.seen, "now": time.Unix(0, now).UTC().String()},
 				Obs:   map[string]any{"accepted": accepted, "expected": want, "panic": panicked}, Term: fmt.Sprint(ok), ImplSpecOK: Bptr(ok),
 				Dedup: fmt.Sprintf("%s/%d", mode, len(ids))})
+		}
+	}
+}
+
+// The middleware declares outstanding exactly the request ids of the authentic tracking
+// cookies the browser presents (plus "" only in IdP-initiated mode).
+func c04Middleware(c *Ctx) {
+	g := c.Group("c04mw", nil, "bool", "check_bools")
+	now := baseNow
+	const id = "id-7f3a9c0e1b"
+	n := 0
+	for _, allow := range []bool{false, true} {
+		for _, ncookies := range []int{0, 1, 2} {
+			for _, irt := range []*string{sp(id), sp("id-0000000000"), sp(""), nil} {
+				n++
+				cfg := defaultCfg()
+				cfg.AllowIdpInit = allow
+				rs, as := validSpecs(cfg, now, fmt.Sprintf("mw%d", n))
+				rs.IRT, as.Confs[0].IRT = irt, irt
+				r := buildResponse(rs, buildAssertion(as))
+				SignInto(r, 0)
+				status, panicked := 0, ""
+				withGlobals(cfg, now, func() {
+					oldJ := jwt.TimeFunc
+					jwt.TimeFunc = saml.TimeNow
+					defer func() { jwt.TimeFunc = oldJ }()
+					defer func() {
+						if p := recover(); p != nil {
+							panicked = fmt.Sprint(p)
+						}
+					}()
+					spv := cfg.SP()
+					m, err := samlsp.New(samlsp.Options{URL: mustURL("https://sp.example.com/"), Key: spv.Key.(*rsa.PrivateKey), Certificate: spv.Certificate,
+						IDPMetadata: spv.IDPMetadata, AllowIDPInitiated: allow})
+					if err != nil {
+						panic(err)
+					}
+					m.ServiceProvider = *spv
+					var cookies []*http.Cookie
+					for k := 0; k < ncookies; k++ {
+						rr := httptest.NewRecorder()
+						req0, _ := http.NewRequest("GET", "https://sp.example.com/page", nil)
+						rid := id
+						if k == 1 {
+							rid = "id-55aa55aa55"
+						}
+						if _, err := m.RequestTracker.TrackRequest(rr, req0, rid); err != nil {
+							panic(err)
+						}
+						cookies = append(cookies, rr.Result().Cookies()...)
+					}
+					form := url.Values{"SAMLResponse": {base64.StdEncoding.EncodeToString([]byte(r.Render()))}}
+					req, _ := http.NewRequest("POST", cfg.AcsURL, strings.NewReader(form.Encode()))
+					req.Header.Set("Content-Type", "application/x-www-form-urlencoded")
+					for _, ck := range cookies {
+						req.AddCookie(ck)
+					}
+					rr := httptest.NewRecorder()
+					m.ServeHTTP(rr, req)
+					status = rr.Code
+				})
+				accepted := status == http.StatusFound
+				// outstanding = ids of presented cookies (+ "" when IdP-initiated); IdP-initiated mode accepts any InResponseTo
+				want := allow || (ncookies >= 1 && irt != nil && *irt == id)
+				ok := accepted == want && panicked == ""
+				irtS := "absent"
+				if irt != nil {
+					irtS = "'" + *irt + "'"
+				}
+				c.Count("class/middleware")
+				c.Add(g, &Case{Key: map[string]string{"class": "middleware", "allow_idp_initiated": fmt.Sprint(allow), "tracking_cookies": fmt.Sprint(ncookies), "irt": irtS},
+					Input: map[string]any{"allow_idp_initiated": allow, "tracking_cookies": ncookies, "in_response_to": irtS},
+					Obs:   map[string]any{"status": status, "accepted": accepted, "expected": want, "panic": panicked}, Term: fmt.Sprint(ok), ImplSpecOK: Bptr(ok),
+					Dedup: fmt.Sprintf("%v/%d/%s", allow, ncookies, irtS)})
+			}
 		}
 	}
 }
